@@ -9,6 +9,7 @@ import (
 	"fmt"
 	"go/ast"
 	"go/token"
+	"regexp"
 	"sort"
 	"strconv"
 	"strings"
@@ -480,6 +481,33 @@ func genOptTable(r *repo) string {
 			}
 		}
 	}
+	// the tail of ParseArguments ("set option defaults based on other options"): the top-level statements after the
+	// option loop that mention a field the model's `finish` reads or writes, comments and line breaks removed
+	var finishTail []string
+	if pa != nil {
+		if sw := findSwitchOnOpt(r, pa); sw != nil {
+			after := false
+			cre := regexp.MustCompile(`(?s)/\*.*?\*/|//[^\n]*`)
+			for _, st := range pa.Body.List {
+				if !after {
+					if st.Pos() <= sw.Pos() && sw.End() <= st.End() {
+						after = true
+					}
+					continue
+				}
+				src := strings.Join(strings.Fields(cre.ReplaceAllString(r.src(st), "")), " ")
+				for _, id := range []string{"version_opt_cnt", "opts.human_readable", "opts.recurse", "opts.xfer_dirs", "opts.delete_mode", "opts.list_only"} {
+					if strings.Contains(src, id) {
+						finishTail = append(finishTail, src)
+						break
+					}
+				}
+			}
+		}
+	}
+	if len(finishTail) == 0 {
+		r.fail("OptTable: no statements found after the option loop of ParseArguments")
+	}
 	accs := g.accessors()
 	// defaults
 	type kv struct {
@@ -549,6 +577,15 @@ func genOptTable(r *repo) string {
 		b.WriteString("\n]\n")
 		fmt.Fprintf(&b, "def %sDefault : List Act := %s\n\n", name, def)
 	}
+	b.WriteString("/-- the statements after the option loop of ParseArguments that touch what `Opts.finish` models -/\ndef finishTail : List String := [\n")
+	for i, t := range finishTail {
+		sep := ","
+		if i == len(finishTail)-1 {
+			sep = ""
+		}
+		fmt.Fprintf(&b, "  %s%s\n", leanStr(t), sep)
+	}
+	b.WriteString("]\n\n")
 	emitCases("mainCases", mainCases)
 	emitCases("daemonCases", daemonCases)
 	fmt.Fprintf(&b, "def optServer : Int := %d\ndef optSender : Int := %d\ndef optDaemon : Int := %d\n\n", imported["OPT_SERVER"], imported["OPT_SENDER"], imported["OPT_DAEMON"])
